@@ -7,3 +7,20 @@ Open Scope N_scope.
 
 (* a memory layout: size and alignment *)
 Record layout : Type := mkLayout { l_size : N; l_align : N }.
+
+(* an owning container (Box<T>, Box<[T]>, Vec<T>, Rc<T>, Rc<[T]>, Arc<T>, Arc<[T]>) as the allocator
+   and the caller see it: data pointer, length, capacity.  `Box::into_raw` / `Vec::as_mut_ptr`
+   followed by a pointer cast and `from_raw` / `from_raw_parts` hand the SAME block back under a new
+   element type; the translator keeps the container through that round trip. *)
+Record cont : Type := mkCont { cptr : N; clen : N; ccap : N }.
+
+(* core::slice::from_raw_parts_mut(p as *mut B, n) on a container's buffer: a slice container of n
+   elements (slice containers have capacity = length) *)
+Definition cont_resize (c : cont) (n : N) : cont := mkCont (cptr c) n n.
+(* Vec::from_raw_parts(p, len, cap) *)
+Definition cont_set (c : cont) (len cap : N) : cont := mkCont (cptr c) len cap.
+
+(* BoxBytes: an owned byte block and the layout it was allocated with *)
+Record boxbytes : Type := mkBB { bb_ptr : N; bb_layout : layout }.
+(* Box::from_raw(address as *mut T): a Box of one T *)
+Definition cont_of_addr (p : N) : cont := mkCont p 1 1.
